@@ -1,4 +1,5 @@
 import Cbor.Props.Census
+import Cbor.Lemmas.Threads
 /-!
 # C17 — the library keeps no hidden mutable global state
 
@@ -12,8 +13,11 @@ whose target is one of them, from clang's AST on every run):
 * the only static local is the callback table inside `cbor_load`, and no function assigns it.
 
 Hence every other store the library performs goes to memory reached from its arguments or obtained from the
-allocator: threads working on disjoint items share no written location.  The absence of data races on actual
-schedules is observed under ThreadSanitizer; see DESIGN.md.
+allocator: threads working on disjoint items share no written location.  On the model side this is the theorem
+`C17_any_schedule` (`Threads.interleaving_eq_solo`): in a world of threads that share no item — which, by the census, is a
+family of independent client states — **every** interleaving of their API calls gives each thread the final state and
+the sequence of results of its solo run, and a step of one thread leaves every other thread's state untouched.  The
+absence of data races of the compiled code on actual schedules is observed under ThreadSanitizer; see DESIGN.md.
 -/
 namespace Props.C17
 open Gen.Effects Props.Census
@@ -31,5 +35,18 @@ theorem C17_static_locals : staticLocals = [("cbor_load", "callbacks")] := by de
 /-- the functions a worker thread runs (everything except installing the allocator) assign no global at all -/
 theorem C17_workers_write_no_global :
     (globalWrites.filter fun w => w.1 != "cbor_set_allocs") = [] := by decide +kernel
+
+/-- **Every schedule.**  Threads that share no item: under every interleaving of their API calls (decode, build, copy,
+container operations, release — the whole history language of the heap model), each thread ends in the state and
+obtains the results of running its own calls alone. -/
+theorem C17_any_schedule (ω : Nat → Heap.Oracle) (L : Nat) (i : Nat) (sched : List Threads.Ev) (w : Threads.World) :
+    (Threads.runW ω L w sched).1.st i = (Threads.solo (ω i) L (w.st i) (Threads.mine i sched)).1 ∧
+    Threads.results i (Threads.runW ω L w sched).2 = (Threads.solo (ω i) L (w.st i) (Threads.mine i sched)).2 :=
+  Threads.interleaving_eq_solo ω L i sched w
+
+/-- a step of one thread writes no location of any other thread's state -/
+theorem C17_disjoint_writes (ω : Nat → Heap.Oracle) (L : Nat) (w : Threads.World) (e : Threads.Ev) (i : Nat) (h : i ≠ e.1) :
+    (Threads.stepW ω L w e).1.st i = w.st i :=
+  Threads.stepW_other ω L w e i h
 
 end Props.C17
